@@ -107,6 +107,17 @@ theorem countryFact_of {lo hi : Nat} {r : Reg} (hc : countryOkB lo hi (key r) = 
     simp only [Bool.and_eq_true] at hc
     exact ⟨b, rangeFind_spec lo hi blocks b hr h h1 h2, hc.1, hc.2⟩
 
+theorem catFind_mem (t : List Char) : ∀ (cs : List Category) (c : Category), catFind t cs = some c → c ∈ cs := by
+  intro cs
+  induction cs with
+  | nil => intro c h; cases h
+  | cons d ds ih =>
+    intro c h
+    unfold catFind at h
+    split at h
+    · cases h; simp
+    · exact List.mem_cons_of_mem _ (ih c h)
+
 /-! ### what each scheme lemma establishes -/
 
 def Fact (h : Nat) (r : Reg) : Prop := wf r ∧ inv r = h ∧ CountryFact h r
